@@ -53,6 +53,9 @@ THEOREMS = [
     # copying operations: results in fresh buffers, operands unchanged
     'C06.frame_fresh_meaning', 'C06.extend_fresh_unchanged', 'C06.extendInt_fresh_unchanged',
     'C06.propGetAtoms_fresh_unchanged', 'C06.new_fresh_unchanged',
+    # scaled reads (System.atoms_prop(..., scale=True) without value) and deepcopy(system): reads do not write, the
+    # returned object is fresh for EVERY index form (also a slice of >= 2 atoms, where atoms[index] holds views)
+    'C06.sysPropGetScaled_reads_only', 'C06.sysPropGetAtomsScaled_fresh_unchanged', 'C06.sysDeepcopy_spec',
     # refusals
     'C06.viewSet_len_mismatch_rejects', 'C06.viewSet_atype_lt_one_rejects', 'C06.propSet_atype_lt_one_rejects',
     'C06.assign_shape_mismatch_rejects', 'C06.assign_oob_rejects', 'C06.setItem_keys_mismatch_rejects',
@@ -244,20 +247,46 @@ def ix_wire(ix):
     raise ValueError(ix)
 
 
+def ix_form(ix):
+    """form marker of an index spec: None (python int / list / numpy bool array), 'np' (numpy integer scalar, numpy
+    integer array), 'list' (boolean mask as a python list), 'tuple' (integer indices as a tuple is NOT a form: numpy
+    reads a tuple as a multi-axis index)."""
+    if ix is None or ix[0] == 'S':
+        return None
+    return ix[2] if len(ix) > 2 else None
+
+
 def ix_py(ix):
     np = _np()
     if ix is None:
         return None
     t = ix[0]
+    form = ix_form(ix)
     if t == 'I':
-        return int(ix[1])
+        return np.int64(ix[1]) if form == 'np' else int(ix[1])
     if t == 'S':
         return slice(ix[1], ix[2], ix[3])
     if t == 'L':
+        if form == 'np':
+            return np.array([int(v) for v in ix[1]], dtype=np.int64)
         return [int(v) for v in ix[1]]
     if t == 'K':
+        if form == 'list' and ix[1]:
+            return [bool(v) for v in ix[1]]
         return np.array(ix[1], dtype=bool)
     raise ValueError(ix)
+
+
+def vary_index(rng, ix, p=0.3):
+    """the same selection in another index FORM (the model sees the same index): numpy integer scalar for an int,
+    numpy integer array for a list, python list of bools for a mask."""
+    if ix is None or ix[0] == 'S' or len(ix) > 2 or rng.random() >= p:
+        return ix
+    if ix[0] in ('I', 'L'):
+        return ix[:2] + ['np']
+    if ix[0] == 'K' and ix[1]:
+        return ix[:2] + ['list']
+    return ix
 
 
 def syms_wire(l):
@@ -283,6 +312,7 @@ class World:
         self.mid = {}                 # handle -> model id
         self.pending = []             # observation operations queued by schedule_obs (issued before anything else)
         self.last_read = {}           # atoms handle -> last read operation on it (re-issued after a write)
+        self.box = {}                 # system handle -> box literal (12 floats) the system was built with
 
     def live_arrays(self):
         out = []
@@ -342,9 +372,13 @@ def op_line(op, W):
         if k == 'pbcset':
             return ' '.join([f"op pbcset {m[op['s']]}", str(len(op['pbc']))] + ['1' if b else '0' for b in op['pbc']])
         if k == 'spget':
-            return f"op spget {m[op['s']]} {op['key']} {ix_wire(op.get('ix'))}"
+            return f"op {'spgets' if op.get('scale') else 'spget'} {m[op['s']]} {op['key']} {ix_wire(op.get('ix'))}"
         if k == 'spgeta':
+            if op.get('scale'):
+                return f"op spgetas {m[op['s']]} {ix_wire(op.get('ix'))}"
             return f"op spgeta {m[op['s']]} {ix_wire(op['ix'])}"
+        if k == 'sdcopy':
+            return f"op sdcopy {m[op['s']]}"
         if k == 'spset':
             return (f"op spset {m[op['s']]} {op['key']} {ix_wire(op.get('ix'))} {'1' if op['scale'] else '0'} "
                     f"{lit_wire(op['val'])}")
@@ -369,6 +403,47 @@ def _canon_val(tokens):
     if len(tokens) >= 3 and tokens[0] == 'V' and tokens[2] == '0' and tokens[1].startswith('s'):
         tokens = [tokens[0], 's'] + tokens[2:]
     return ' '.join(tokens)
+
+
+def ix_kw(op):
+    """index=… / a_id=… keywords of prop / atoms_prop: `a_id` is the documented backwards-compatible spelling of
+    `index` (op['aid'] == 'aid'); both together (op['aid'] == 'both') must be refused."""
+    ix = ix_py(op.get('ix'))
+    aid = op.get('aid')
+    if aid == 'aid':
+        return {'a_id': ix}
+    if aid == 'both':
+        return {'index': ix, 'a_id': ix}
+    return {'index': ix}
+
+
+def scale_kw(op):
+    return {'scale': True} if op.get('scale') else {}
+
+
+def tuple_form(op, field):
+    """symbols / masses as handed to System: list (default), tuple, or - for a single entry - the bare str / float
+    (`aslist` semantics, op['<field>_as'])."""
+    v = list(op[field])
+    form = op.get(field + '_as')
+    if form == 'tuple':
+        return tuple(v)
+    if form == 'bare' and len(v) == 1 and v[0] is not None:
+        return v[0]
+    return v
+
+
+def pbc_form(op):
+    """pbc as list of bools (default), tuple, list of 0/1 ints, or numpy bool array (op['pbc_as'])."""
+    v = [bool(b) for b in op['pbc']]
+    form = op.get('pbc_as')
+    if form == 'tuple':
+        return tuple(v)
+    if form == 'int':
+        return [int(b) for b in v]
+    if form == 'np':
+        return _np().array(v, dtype=bool)
+    return v
 
 
 def exec_real(op, W):
@@ -401,9 +476,9 @@ def exec_real(op, W):
             rep = 'ok'
         elif k in ('pget', 'spget'):
             if k == 'pget':
-                r = A[op['o']].prop(key=op['key'], index=ix_py(op.get('ix')))
+                r = A[op['o']].prop(key=op['key'], **ix_kw(op))
             else:
-                r = S[op['s']].atoms_prop(key=op['key'], index=ix_py(op.get('ix')))
+                r = S[op['s']].atoms_prop(key=op['key'], **ix_kw(op), **scale_kw(op))
             W.last_out = r
             rep = 'ok v ' + _canon_val(val_wire(r).split(' '))
         elif k == 'pkeys':
@@ -411,16 +486,21 @@ def exec_real(op, W):
             rep = ' '.join(['ok k', str(len(r))] + list(r))
         elif k in ('pgeta', 'spgeta'):
             if k == 'pgeta':
-                a = A[op['o']].prop(index=ix_py(op['ix']))
+                a = A[op['o']].prop(**ix_kw(op))
             else:
-                a = S[op['s']].atoms_prop(index=ix_py(op['ix']))
+                a = S[op['s']].atoms_prop(**ix_kw(op), **scale_kw(op))
+            if not isinstance(a, am.Atoms):
+                raise RuntimeError('prop(index=) did not return an Atoms object but %r' % type(a).__name__)
             created.append(('a', 'a%d' % op['id'], a))
             rep = 'ok o'
+        elif k == 'spkeys':
+            r = S[op['s']].atoms_prop()
+            rep = ' '.join(['ok k', str(len(r))] + list(r))
         elif k == 'pset':
-            A[op['o']].prop(key=op['key'], index=ix_py(op.get('ix')), value=lit_arg(op['val']))
+            A[op['o']].prop(key=op['key'], **ix_kw(op), value=lit_arg(op['val']))
             rep = 'ok'
         elif k == 'pseta':
-            A[op['o']].prop(index=ix_py(op.get('ix')), value=A[op['src']])
+            A[op['o']].prop(**ix_kw(op), value=A[op['src']])
             rep = 'ok'
         elif k == 'geti':
             a = A[op['o']][ix_py(op['ix'])]
@@ -445,8 +525,19 @@ def exec_real(op, W):
             created.append(('a', 'a%d' % op['id'], a))
             rep = 'ok o'
         elif k in ('df', 'sdf'):
-            W.last_obs = A[op['o']].df() if k == 'df' else S[op['s']].atoms_df()
+            if k == 'df':
+                W.last_obs = A[op['o']].df()
+            elif op.get('scale') in (None, False):
+                W.last_obs = S[op['s']].atoms_df()
+            else:
+                W.last_obs = S[op['s']].atoms_df(scale=op['scale'])
             rep = 'ok'
+        elif k == 'sdcopy':
+            s = copy.deepcopy(S[op['s']])
+            created.append(('a', 'a%d' % op['id'], s.atoms))
+            created.append(('s', 's%d' % op['id'], s))
+            W.box['s%d' % op['id']] = W.box.get(op['s'])
+            rep = 'ok os'
         elif k == 'natypes':
             rep = 'ok n %d' % A[op['o']].natypes
         elif k == 'mksys':
@@ -454,26 +545,27 @@ def exec_real(op, W):
             box = am.Box(vects=np.array(b[:9], dtype=float).reshape(3, 3), origin=np.array(b[9:], dtype=float))
             kw = {}
             if op.get('symbols') is not None:
-                kw['symbols'] = list(op['symbols'])
+                kw['symbols'] = tuple_form(op, 'symbols')
             if op.get('masses') is not None:
-                kw['masses'] = list(op['masses'])
-            s = am.System(atoms=A[op['o']], box=box, pbc=list(op['pbc']), **kw)
+                kw['masses'] = tuple_form(op, 'masses')
+            s = am.System(atoms=A[op['o']], box=box, pbc=pbc_form(op), **kw)
             created.append(('s', 's%d' % op['id'], s))
+            W.box['s%d' % op['id']] = list(op['box'])
             rep = 'ok os'
         elif k == 'symget':
             r = S[op['s']].symbols
             rep = 'ok y ' + syms_wire(list(r))
         elif k == 'symset':
-            S[op['s']].symbols = list(op['symbols'])
+            S[op['s']].symbols = tuple_form(op, 'symbols')
             rep = 'ok'
         elif k == 'massget':
             r = S[op['s']].masses
             rep = 'ok w ' + masses_wire(list(r))
         elif k == 'massset':
-            S[op['s']].masses = list(op['masses'])
+            S[op['s']].masses = tuple_form(op, 'masses')
             rep = 'ok'
         elif k == 'pbcset':
-            S[op['s']].pbc = list(op['pbc'])
+            S[op['s']].pbc = pbc_form(op)
             rep = 'ok'
         elif k == 'snatypes':
             rep = 'ok n %d' % S[op['s']].natypes
@@ -488,11 +580,10 @@ def exec_real(op, W):
             mt = re.search(r'^natypes = (\d+)$', r, re.M)
             rep = 'ok n ' + (mt.group(1) if mt else '?')
         elif k == 'spset':
-            S[op['s']].atoms_prop(key=op['key'], index=ix_py(op.get('ix')), value=lit_arg(op['val']),
-                                  scale=bool(op['scale']))
+            S[op['s']].atoms_prop(key=op['key'], **ix_kw(op), value=lit_arg(op['val']), scale=bool(op['scale']))
             rep = 'ok'
         elif k == 'spseta':
-            S[op['s']].atoms_prop(index=ix_py(op.get('ix')), value=A[op['src']], scale=bool(op['scale']))
+            S[op['s']].atoms_prop(**ix_kw(op), value=A[op['src']], scale=bool(op['scale']))
             rep = 'ok'
         elif k == 'sext':
             v = op['value']
@@ -503,11 +594,13 @@ def exec_real(op, W):
             s = S[op['s']].atoms_extend(val, scale=bool(op['scale']), **kw)
             created.append(('a', 'a%d' % op['id'], s.atoms))
             created.append(('s', 's%d' % op['id'], s))
+            W.box['s%d' % op['id']] = W.box.get(op['s'])
             rep = 'ok os'
         elif k == 'ixget':
             s = S[op['s']].atoms_ix[ix_py(op['ix'])]
             created.append(('a', 'a%d' % op['id'], s.atoms))
             created.append(('s', 's%d' % op['id'], s))
+            W.box['s%d' % op['id']] = W.box.get(op['s'])
             rep = 'ok os'
         elif k == 'ixset':
             v = op['src']
@@ -536,6 +629,45 @@ def canon_model_reply(rep):
     return rep, []
 
 
+def pbc_tokens(s):
+    """the stored pbc as 0/1 tokens; anything that is not a numpy bool array prints as `?<what>` tokens."""
+    np = _np()
+    p = s.pbc
+    if not isinstance(p, np.ndarray) or p.dtype != np.bool_ or p.ndim != 1:
+        return ['?' + type(p).__name__ + ':' + str(getattr(p, 'dtype', ''))] * max(1, len(np.atleast_1d(np.asarray(p))))
+    return ['1' if b else '0' for b in p.tolist()]
+
+
+_BOX_EXACT = {}
+
+
+def box_exact(box):
+    """the Cartesian -> box-relative map of this box is exact in double arithmetic on the generated (dyadic) values:
+    numpy's inverse of the vectors equals the rational inverse entry by entry, and every entry is a small dyadic."""
+    if box is None:
+        return False
+    key = tuple(float(x) for x in box)
+    if key not in _BOX_EXACT:
+        np = _np()
+        v = np.array(key[:9], dtype=float).reshape(3, 3)
+        M = [[Fraction(x) for x in r] for r in v.tolist()]
+        det = (M[0][0] * (M[1][1] * M[2][2] - M[1][2] * M[2][1]) - M[0][1] * (M[1][0] * M[2][2] - M[1][2] * M[2][0])
+               + M[0][2] * (M[1][0] * M[2][1] - M[1][1] * M[2][0]))
+        ok = det != 0
+        if ok:
+            cof = [[M[(i + 1) % 3][(j + 1) % 3] * M[(i + 2) % 3][(j + 2) % 3]
+                    - M[(i + 1) % 3][(j + 2) % 3] * M[(i + 2) % 3][(j + 1) % 3] for j in range(3)] for i in range(3)]
+            finv = [[cof[j][i] / det for j in range(3)] for i in range(3)]
+            try:
+                inv = np.linalg.inv(v)
+                ok = all(Fraction(float(inv[i][j])) == finv[i][j] and finv[i][j].denominator <= 64
+                         for i in range(3) for j in range(3))
+            except Exception:
+                ok = False
+        _BOX_EXACT[key] = ok
+    return _BOX_EXACT[key]
+
+
 def dump_real(W):
     """same token stream as the driver's `dump`."""
     np = _np()
@@ -550,11 +682,10 @@ def dump_real(W):
             arrs.append(arr)
     for h, s in W.syss.items():
         aid = next((W.mid[ah] for ah, a in W.atoms.items() if a is s.atoms), -1)
-        pbc = [bool(x) for x in np.asarray(s.pbc).tolist()]
+        pbc = pbc_tokens(s)
         sy = list(s._System__symbols)
         ms = list(s._System__masses)
-        parts.append(' '.join(['Y', str(W.mid[h]), str(aid), str(len(pbc))] + ['1' if b else '0' for b in pbc]
-                              + [syms_wire(sy), masses_wire(ms)]))
+        parts.append(' '.join(['Y', str(W.mid[h]), str(aid), str(len(pbc))] + pbc + [syms_wire(sy), masses_wire(ms)]))
     sh = []
     n = len(arrs)
     for i in range(n):
@@ -604,7 +735,11 @@ def gen_lit(rng, dt, shape, key=None):
 
 
 def gen_index(rng, n, bad=False):
-    """an index against leading length n (mostly valid)."""
+    """an index against leading length n (mostly valid), in one of the forms numpy / Atoms accept."""
+    return vary_index(rng, _gen_index(rng, n, bad))
+
+
+def _gen_index(rng, n, bad=False):
     r = rng.random()
     if bad and r < 0.5:
         c = rng.random()
@@ -728,7 +863,7 @@ def gen_twin(rng, a, k):
 
 
 def gen_box(rng):
-    d = lambda: rng.choice([1.0, 2.0, 4.0, 0.5, 3.0])
+    d = lambda: rng.choice([1.0, 2.0, 4.0, 0.5, 2.0, 4.0, 3.0])
     t = lambda: rng.choice([0.0, 0.0, 0.5, -0.5, 1.0])
     return [d(), 0.0, 0.0, t(), d(), 0.0, t(), t(), d(), rng.choice([0.0, 0.5, -1.0]), rng.choice([0.0, 0.25]), 0.0]
 
@@ -833,6 +968,41 @@ def gen_grow(rng, W, sh, nt):
             'grow': True}
 
 
+def with_aid(rng, op, p=0.1):
+    """`a_id=` instead of `index=` (the documented backwards-compatible spelling; the model sees the same call)."""
+    if op.get('ix') is not None and rng.random() < p:
+        op['aid'] = 'aid'
+    return op
+
+
+def with_forms(rng, op, p=0.3):
+    """other spellings of symbols / masses / pbc that `aslist` / `np.asarray(dtype=bool)` accept: tuple, the bare
+    str / float for one entry, 0/1 ints, numpy bool array (the model sees the same call)."""
+    for field in ('symbols', 'masses'):
+        v = op.get(field)
+        if v is not None and rng.random() < p:
+            op[field + '_as'] = 'bare' if (len(v) == 1 and v[0] is not None and rng.random() < 0.7) else 'tuple'
+    if op.get('pbc') is not None and rng.random() < p:
+        op['pbc_as'] = rng.choice(['tuple', 'int', 'np'])
+    return op
+
+
+def gen_span(rng, n):
+    """a basic slice covering at least two of n >= 2 atoms (several spellings: open ends, negative bounds, steps)."""
+    c = rng.random()
+    if c < 0.25:
+        return ['S', None, None, rng.choice([None, 1, -1, 2 if n >= 3 else 1])]
+    a = rng.randint(0, n - 2)
+    b = rng.randint(a + 2, n)
+    if c < 0.5:
+        return ['S', a, b, None]
+    if c < 0.7:
+        return ['S', a - n, b if b < n else None, rng.choice([None, 1])]
+    if c < 0.85:
+        return ['S', b - 1, a - 1 if a > 0 else None, -1]
+    return ['S', a if a > 0 else None, None if b == n else b, 1]
+
+
 def gen_op(rng, W, k, malformed=0.12):
     """next operation given the live real objects (the generator sees only shapes/keys, never values)."""
     A, S = W.atoms, W.syss
@@ -869,10 +1039,11 @@ def gen_op(rng, W, k, malformed=0.12):
         + ['seti'] * 5 + ['patype'] * 5 + ['exti'] * 3 + ['exta'] * 5 + ['dcopy'] * 2 + ['natypes'] * 2 + ['mksys'] * 4
     if S:
         kinds += ['symget', 'symset', 'massget', 'massset', 'pbcset', 'snatypes'] * 2 + ['satypes', 'scomp', 'sstr'] \
-            + ['spget', 'spgeta'] + ['spset'] * 4 + ['spseta'] * 2 + ['sext'] * 5 + ['ixget'] * 4 + ['ixset'] * 3
+            + ['spget'] * 4 + ['spgeta'] * 5 + ['spset'] * 4 + ['spseta'] * 2 + ['sext'] * 5 + ['ixget'] * 4 \
+            + ['ixset'] * 3 + ['sdcopy'] * 2
     kind = rng.choice(kinds)
     if kind in ('symget', 'symset', 'massget', 'massset', 'pbcset', 'snatypes', 'satypes', 'scomp', 'sstr', 'spget',
-                'spgeta', 'spset', 'spseta', 'sext', 'ixget', 'ixset'):
+                'spgeta', 'spset', 'spseta', 'sext', 'ixget', 'ixset', 'sdcopy'):
         sh = rng.choice(list(S))
         s = S[sh]
         a = s.atoms
@@ -892,14 +1063,32 @@ def gen_op(rng, W, k, malformed=0.12):
     if kind in ('pget', 'spget'):
         key = pick_key() if not (bad and rng.random() < 0.4) else 'nokey'
         ix = None if rng.random() < 0.3 else gen_index(rng, n, bad)
-        return {'op': 'pget', 'o': h, 'key': key, 'ix': ix} if kind == 'pget' else \
-            {'op': 'spget', 's': sh, 'key': key, 'ix': ix}
+        if kind == 'pget':
+            return with_aid(rng, {'op': 'pget', 'o': h, 'key': key, 'ix': ix})
+        op = {'op': 'spget', 's': sh, 'key': key, 'ix': ix}
+        if box_exact(W.box.get(sh)) and rng.random() < 0.5:
+            # box-relative read: mostly of a 3-vector column (anything else must be refused, or is the odd
+            # one-vector reading of a 3-atom scalar column)
+            vec = [kk for kk in keys if arr_info(a.view[kk])[1] == [3] and arr_info(a.view[kk])[0] in 'ifb']
+            if vec and rng.random() < 0.85:
+                op['key'] = rng.choice(vec)
+            op['scale'] = True
+        return with_aid(rng, op)
     if kind == 'pkeys':
         return {'op': 'pkeys', 'o': h}
     if kind == 'pgeta':
-        return {'op': 'pgeta', 'o': h, 'ix': gen_index(rng, n, bad), 'id': k}
+        return with_aid(rng, {'op': 'pgeta', 'o': h, 'ix': gen_index(rng, n, bad), 'id': k})
     if kind == 'spgeta':
-        return {'op': 'spgeta', 's': sh, 'ix': gen_index(rng, n, bad), 'id': k}
+        op = {'op': 'spgeta', 's': sh, 'ix': gen_index(rng, n, bad), 'id': k}
+        if box_exact(W.box.get(sh)) and rng.random() < 0.6:
+            op['scale'] = True
+            if rng.random() < 0.15:
+                op['ix'] = None
+            elif n >= 2 and rng.random() < 0.4:
+                op['ix'] = gen_span(rng, n)      # a slice covering two or more atoms: atoms[index] holds views
+        return with_aid(rng, op)
+    if kind == 'sdcopy':
+        return {'op': 'sdcopy', 's': sh, 'id': k}
     if kind in ('pset', 'spset'):
         scale = kind == 'spset' and rng.random() < 0.6
         if scale and n >= 3 and rng.random() < 0.15:
@@ -933,8 +1122,8 @@ def gen_op(rng, W, k, malformed=0.12):
         else:
             v = gen_write_lit(rng, cls, trail, cnt, key, bad)
         if kind == 'pset':
-            return {'op': 'pset', 'o': h, 'key': key, 'ix': ix, 'val': v}
-        return {'op': 'spset', 's': sh, 'key': key, 'ix': ix, 'val': v, 'scale': scale}
+            return with_aid(rng, {'op': 'pset', 'o': h, 'key': key, 'ix': ix, 'val': v})
+        return with_aid(rng, {'op': 'spset', 's': sh, 'key': key, 'ix': ix, 'val': v, 'scale': scale})
     if kind in ('pseta', 'seti', 'spseta', 'ixset'):
         # donors: prefer objects with the same key set
         same = [hh for hh, b in A.items() if sorted(b.view.keys()) == sorted(keys)]
@@ -952,12 +1141,12 @@ def gen_op(rng, W, k, malformed=0.12):
                 break
             ix = gen_index(rng, n, bad)
         if kind == 'pseta':
-            return {'op': 'pseta', 'o': h, 'ix': ix if c < 0.8 else None, 'src': src}
+            return with_aid(rng, {'op': 'pseta', 'o': h, 'ix': ix if c < 0.8 else None, 'src': src})
         if kind == 'seti':
             return {'op': 'seti', 'o': h, 'ix': ix, 'src': src}
         if kind == 'spseta':
-            return {'op': 'spseta', 's': sh, 'ix': ix if c < 0.8 else None, 'src': src,
-                    'scale': rng.random() < 0.5}
+            return with_aid(rng, {'op': 'spseta', 's': sh, 'ix': ix if c < 0.8 else None, 'src': src,
+                                  'scale': rng.random() < 0.5})
         if S and rng.random() < 0.4:
             return {'op': 'ixset', 's': sh, 'ix': ix, 'src': ['s', rng.choice(list(S))]}
         return {'op': 'ixset', 's': sh, 'ix': ix, 'src': ['a', src]}
@@ -1008,15 +1197,16 @@ def gen_op(rng, W, k, malformed=0.12):
             op['symbols'] = gen_syms(rng)
         if rng.random() < 0.5:
             op['masses'] = gen_masses(rng, 0, 4 if bad else 3)
-        return op
+        return with_forms(rng, op)
     if kind in OBSERVERS:
         return {'op': kind, 's': sh}
     if kind == 'symset':
-        return {'op': 'symset', 's': sh, 'symbols': gen_syms(rng, 0, 5)}
+        return with_forms(rng, {'op': 'symset', 's': sh, 'symbols': gen_syms(rng, 0, 5)})
     if kind == 'massset':
-        return {'op': 'massset', 's': sh, 'masses': gen_masses(rng, 0, 5)}
+        return with_forms(rng, {'op': 'massset', 's': sh, 'masses': gen_masses(rng, 0, 5)})
     if kind == 'pbcset':
-        return {'op': 'pbcset', 's': sh, 'pbc': [rng.random() < 0.5 for _ in range(3 if not bad else rng.choice([2, 4, 3]))]}
+        return with_forms(rng, {'op': 'pbcset', 's': sh,
+                                'pbc': [rng.random() < 0.5 for _ in range(3 if not bad else rng.choice([2, 4, 3]))]})
     raise RuntimeError(kind)
 
 
@@ -1028,6 +1218,32 @@ class Mismatch(Exception):
     def __init__(self, key, what, step):
         super().__init__(what)
         self.key, self.what, self.step = key, what, step
+
+
+class Inexact(Exception):
+    """model and implementation differ only by floating-point rounding of a box-relative conversion (the exact
+    regime was left: too many significant bits): the history is abandoned and counted, never reported."""
+
+
+_NUM = re.compile(r'^-?\d+(/\d+)?$')
+
+
+def near_tokens(a, b, rtol=1e-9, atol=1e-12):
+    """the two token streams are equal except for numeric tokens that agree to rounding."""
+    ta, tb = a.split(' '), b.split(' ')
+    if len(ta) != len(tb):
+        return False
+    differ = False
+    for x, y in zip(ta, tb):
+        if x == y:
+            continue
+        if not (_NUM.match(x) and _NUM.match(y)) or ('/' not in x and '/' not in y):
+            return False
+        fx, fy = float(Fraction(x)), float(Fraction(y))
+        if abs(fx - fy) > atol + rtol * max(abs(fx), abs(fy)):
+            return False
+        differ = True
+    return differ
 
 
 def apply_drop(op, W):
@@ -1058,6 +1274,8 @@ def step_both(drv, W, op, idx, stats=None):
     if stats is not None:
         stats(op, rrep)
     if rrep != mcanon:
+        if near_tokens(rrep, mcanon):
+            raise Inexact()
         detail = getattr(W, 'last_exc', '') if rrep.startswith('err') else ''
         raise Mismatch('reply:' + op['op'], f"op #{idx} {op['op']}: implementation replied `{rrep[:200]}` {detail} "
                        f"but the model `{mcanon[:200]}`", idx)
@@ -1069,6 +1287,8 @@ def step_both(drv, W, op, idx, stats=None):
     mdump = drv.ask(dump_line(W))
     rdump = dump_real(W)
     if mdump != rdump:
+        if near_tokens(rdump, mdump):
+            raise Inexact()
         raise Mismatch('state:' + op['op'], f"op #{idx} {op['op']}: states differ after the operation: "
                        + first_diff(rdump, mdump), idx)
     return 'ok'
@@ -1083,15 +1303,21 @@ def first_diff(r, m):
     return f'lengths {len(rt)} vs {len(mt)}: impl tail {" ".join(rt[-8:])} / model tail {" ".join(mt[-8:])}'
 
 
-def run_fixed(drv, ops):
+RUN_FIXED_SKIPPED = []
+
+
+def run_fixed(drv, ops, stats=None):
     """replay a fixed operation list on both sides; returns None or the Mismatch."""
     W = World()
     drv.ask('reset')
     for i, op in enumerate(ops):
         try:
-            step_both(drv, W, op, i)
+            if step_both(drv, W, op, i, stats) == 'skip':
+                RUN_FIXED_SKIPPED.append(op)
         except Mismatch as e:
             return e
+        except Inexact:
+            return None
         except KeyError:
             continue        # handle of a removed operation
     return None
@@ -1130,13 +1356,40 @@ def correspond(ctx):
     kinds = {}
     errs = {}
     skipped = 0
+    inexact = 0
+
+    forms = {}
 
     def stats(op, rrep):
-        kinds[op['op']] = kinds.get(op['op'], 0) + 1
+        name = op['op'] + (':scaled' if op['op'] in ('spget', 'spgeta') and op.get('scale') else '')
+        kinds[name] = kinds.get(name, 0) + 1
+        if 'ix' in op:
+            ix = op['ix']
+            f = name + '[' + ('none' if ix is None else ix[0] + (':' + ix_form(ix) if ix_form(ix) else '')) + ']' \
+                + (':a_id' if op.get('aid') else '')
+            forms[f] = forms.get(f, 0) + 1
         if rrep.startswith('err'):
             errs[op['op'] + ':' + rrep[4:]] = errs.get(op['op'] + ':' + rrep[4:], 0) + 1
 
+    # the accessor matrix first (fixed histories, a few operations each)
+    nmat = 0
+    for name, ops in matrix_histories(rng):
+        nmat += 1
+        e = run_fixed(drv, ops, stats)
+        for op in ops:
+            ctx.stats.case('matrix:' + name.split('[')[0], name + json.dumps(op, sort_keys=True, default=str))
+        if e is not None:
+            small, e2 = shrink(drv, ops, e.key)
+            e2 = e2 or e
+            ctx.disagree(e.key, f'accessor matrix `{name}`: ' + e2.what, {'op': 'history', 'ops': small, 'matrix': name})
+            if len(ctx.disagreements) >= 5:
+                break
+    ctx.extra['c06_matrix_histories'] = nmat
+    ctx.extra['c06_matrix_skipped_unmodelled'] = len(RUN_FIXED_SKIPPED)
+    del RUN_FIXED_SKIPPED[:]
     for hno in range(nhist):
+        if len(ctx.disagreements) >= 5:
+            break
         W = World()
         drv.ask('reset')
         ops = []
@@ -1151,6 +1404,9 @@ def correspond(ctx):
             except Mismatch as e:
                 ops.append(op)
                 fail = e
+                break
+            except Inexact:
+                inexact += 1
                 break
             if r == 'skip':
                 skipped += 1
@@ -1168,8 +1424,10 @@ def correspond(ctx):
                 break
     ctx.extra['c06_ops'] = kinds
     ctx.extra['c06_refusals'] = errs
+    ctx.extra['c06_index_forms'] = forms
     ctx.extra['c06_histories'] = nhist
     ctx.extra['c06_skipped_unmodelled'] = skipped
+    ctx.extra['c06_abandoned_inexact'] = inexact
 
 
 # ----------------------------------------------------------------------------------------------
@@ -1194,11 +1452,19 @@ class OSys:
     is LAZY and STICKY in the specification as well (a tuple is padded when it is assigned and whenever it is read,
     never shortened): `nt` below is always the number of atom types of the record model at that moment."""
 
-    def __init__(self, atoms_h, box):
+    def __init__(self, atoms_h, box, pbc=None):
         self.atoms_h = atoms_h
         self.box = box
+        self.pbc = None if pbc is None else [bool(b) for b in pbc]
         self.symbols = []
         self.masses = []
+
+    def copy_for(self, atoms_h):
+        """copy.deepcopy(system): box, pbc and the tuples AS STORED (no getter runs, nothing is padded)."""
+        y = OSys(atoms_h, self.box, self.pbc)
+        y.symbols = list(self.symbols)
+        y.masses = list(self.masses)
+        return y
 
     def get_symbols(self, nt):
         self.symbols = self.symbols + [None] * (nt - len(self.symbols))
@@ -1237,9 +1503,9 @@ class OSys:
         return ''.join(k + ('' if counts[k] // g == 1 else str(counts[k] // g)) for k in sorted(counts))
 
 
-def new_osys(atoms_h, box, nt, symbols, masses):
+def new_osys(atoms_h, box, nt, symbols, masses, pbc=None):
     """System(atoms, box, symbols=, masses=): the two setters, symbols first."""
-    y = OSys(atoms_h, box)
+    y = OSys(atoms_h, box, pbc)
     y.set_symbols(nt, symbols)
     y.set_masses(nt, masses)
     return y
@@ -1369,17 +1635,30 @@ def oracle_apply(op, O, OS):
         ix = op.get('ix')
         pos = list(range(o.n)) if ix is None else o_positions(o.n, ix)
         out = [o.recs[p][op['key']] for p in pos]
+        if op.get('scale'):
+            out = [o_ctr_row(OS[op['s']].box, r) for r in out]
     elif k in ('geti', 'pgeta', 'spgeta', 'ixget'):
         h = op['o'] if 'o' in op else OS[op['s']].atoms_h
         o = O[h]
-        O['a%d' % op['id']] = o.clone_rows(o_positions(o.n, op['ix']))
+        nw = o.clone_rows(range(o.n) if op.get('ix') is None else o_positions(o.n, op['ix']))
+        O['a%d' % op['id']] = nw
+        if op.get('scale'):
+            # newatoms.pos = box.position_cartesian_to_relative(newatoms.pos): the NEW object's positions only
+            cls, _, w = nw.meta['pos']
+            for r in nw.recs:
+                r['pos'] = tuple(o_cast(cls, w, c) for c in o_ctr_row(OS[op['s']].box, r['pos']))
         if k == 'ixget':
             y = OS[op['s']]
             nw = O['a%d' % op['id']]
-            OS['s%d' % op['id']] = new_osys('a%d' % op['id'], y.box, o_natypes(nw), y.get_symbols(o_natypes(o)), [])
+            OS['s%d' % op['id']] = new_osys('a%d' % op['id'], y.box, o_natypes(nw), y.get_symbols(o_natypes(o)), [], y.pbc)
     elif k == 'dcopy':
         o = O[op['o']]
         O['a%d' % op['id']] = o.clone_rows(range(o.n))
+    elif k == 'sdcopy':
+        y = OS[op['s']]
+        o = O[y.atoms_h]
+        O['a%d' % op['id']] = o.clone_rows(range(o.n))
+        OS['s%d' % op['id']] = y.copy_for('a%d' % op['id'])
     elif k in ('seti', 'pseta', 'spseta', 'ixset'):
         if k == 'ixset':
             h = OS[op['s']].atoms_h
@@ -1388,6 +1667,15 @@ def oracle_apply(op, O, OS):
             h = op['o'] if 'o' in op else OS[op['s']].atoms_h
             src = op['src']
         o, d = O[h], O[src]
+        if k == 'spseta' and op.get('scale'):
+            # `value.pos = box.position_relative_to_cartesian(value.pos)`: the DONOR's positions are overwritten
+            # first (what the code does and the model transcribes), then the item assignment
+            cls, _, w = d.meta['pos']
+            for r in d.recs:
+                r['pos'] = tuple(o_cast(cls, w, c) for c in o_rtc_row(OS[op['s']].box, r['pos']))
+            written.append((src, 'pos'))
+        if op.get('refuse'):
+            return None, written
         ix = op.get('ix')
         pos = list(range(o.n)) if ix is None else o_positions(o.n, ix)
         donor = [dict(r) for r in d.recs]       # read the donor before writing (it may be the same object)
@@ -1461,11 +1749,12 @@ def oracle_apply(op, O, OS):
                 nw.recs[o.n + j]['pos'] = o_rtc_row(b, r['pos'])
         O['a%d' % op['id']] = nw
         if k == 'sext':
-            OS['s%d' % op['id']] = new_osys('a%d' % op['id'], y.box, o_natypes(nw), sext_syms, [])
+            OS['s%d' % op['id']] = new_osys('a%d' % op['id'], y.box, o_natypes(nw), sext_syms, [], y.pbc)
     elif k == 'mksys':
         ms = op.get('masses') or []
         sy = op['symbols'] if op.get('symbols') is not None else [None] * len(ms)
-        OS['s%d' % op['id']] = new_osys(op['o'], [Fraction(x) for x in op['box']], o_natypes(O[op['o']]), sy, ms)
+        OS['s%d' % op['id']] = new_osys(op['o'], [Fraction(x) for x in op['box']], o_natypes(O[op['o']]), sy, ms,
+                                         op['pbc'])
     elif k == 'symset':
         y = OS[op['s']]
         y.set_symbols(o_natypes(O[y.atoms_h]), op['symbols'])
@@ -1478,7 +1767,9 @@ def oracle_apply(op, O, OS):
         pass
     elif k == 'natypes':
         out = ('ok n %d' % o_natypes(O[op['o']]), None)
-    elif k in ('pkeys', 'pbcset'):
+    elif k == 'pbcset':
+        OS[op['s']].pbc = [bool(b) for b in op['pbc']]
+    elif k in ('pkeys', 'spkeys'):
         pass
     else:
         raise AssertionError(k)
@@ -1509,12 +1800,47 @@ def o_rtc_row(b, r):
     return tuple(sum(Fraction(r[i]) * b[3 * i + j] for i in range(3)) + b[9 + j] for j in range(3))
 
 
+_O_INV = {}
+
+
+def o_ctr_row(b, r):
+    """np.inner(pos - origin, inv(vects).T) with Fractions: rel_i = sum_j (pos - origin)_j inv(vects)[j][i]."""
+    key = tuple(b[:9])
+    if key not in _O_INV:
+        M = [[Fraction(b[3 * i + j]) for j in range(3)] for i in range(3)]
+        det = (M[0][0] * (M[1][1] * M[2][2] - M[1][2] * M[2][1]) - M[0][1] * (M[1][0] * M[2][2] - M[1][2] * M[2][0])
+               + M[0][2] * (M[1][0] * M[2][1] - M[1][1] * M[2][0]))
+        cof = [[M[(i + 1) % 3][(j + 1) % 3] * M[(i + 2) % 3][(j + 2) % 3]
+                - M[(i + 1) % 3][(j + 2) % 3] * M[(i + 2) % 3][(j + 1) % 3] for j in range(3)] for i in range(3)]
+        _O_INV[key] = [[cof[j][i] / det for j in range(3)] for i in range(3)]
+    inv = _O_INV[key]
+    d = [(Fraction(int(r[j])) if isinstance(r[j], bool) else Fraction(r[j])) - b[9 + j] for j in range(3)]
+    return tuple(sum(d[j] * inv[j][i] for j in range(3)) for i in range(3))
+
+
 def o_rel_to_cart(box, v):
     data = [Fraction(x) if not isinstance(x, bool) else Fraction(int(x)) for x in v['data']]
     out = []
     for i in range(len(data) // 3):
         out.extend(o_rtc_row(box, data[3 * i:3 * i + 3]))
     return {'dt': 'f', 'shape': v['shape'], 'data': out}
+
+
+def rows_close(rows, want, rtol=1e-9, atol=1e-12):
+    """float rows agree with the exact rows up to rounding (and differ): the exact regime was left."""
+    if len(rows) != len(want):
+        return False
+    for r, w in zip(rows, want):
+        if len(r) != len(w):
+            return False
+        for x, y in zip(r, w):
+            try:
+                fx, fy = float(x), float(y)
+            except (TypeError, ValueError):
+                return False
+            if abs(fx - fy) > atol + rtol * max(abs(fx), abs(fy)):
+                return False
+    return True
 
 
 def check_clauses(op, W, O, OS, pre_arrays, out, created):
@@ -1543,6 +1869,8 @@ def check_clauses(op, W, O, OS, pre_arrays, out, created):
             rows = real_rows(arr)
             want = [r[key] for r in o.recs]
             if rows != want:
+                if cls == 'f' and rows_close(rows, want):
+                    raise Inexact()
                 i = next(i for i in range(o.n) if rows[i] != want[i])
                 raise Violation('values:' + k, f'{h}.{key}: row {i} reads {rows[i]} but atom {i} of the record model has '
                                 f'{want[i]} (after {k})')
@@ -1550,6 +1878,15 @@ def check_clauses(op, W, O, OS, pre_arrays, out, created):
                 raise Violation('atype<1', f'{h}: atype {arr.tolist()} contains a value < 1 (after {k})')
             if key not in type(a).__dict__ and getattr(a, key, None) is not arr:
                 raise Violation('mirror', f'{h}.{key}: attribute no longer mirrors view[{key!r}] (after {k})')
+    for h, y in W.syss.items():
+        if h in OS and OS[h].pbc is not None:
+            got = pbc_tokens(y)
+            want = ['1' if b else '0' for b in OS[h].pbc]
+            if got != want:
+                raise Violation('pbc', f'{h}.pbc reads {got} (dtype {getattr(y.pbc, "dtype", None)}), the record of the '
+                                f'system has {want} (after {k})')
+        if h in OS and OS[h].atoms_h in W.atoms and y.atoms is not W.atoms[OS[h].atoms_h]:
+            raise Violation('system-atoms', f'{h}.atoms is no longer the Atoms object the system was built on (after {k})')
     # System.symbols / masses / natypes / atypes / composition are NOT read here: reading them pads the stored tuples
     # (it would heal a stale tuple before the history's own reads see it).  They are observed only by the getter
     # operations of the history (check_observed), in whatever order the history issues them.
@@ -1560,7 +1897,7 @@ def check_clauses(op, W, O, OS, pre_arrays, out, created):
             for (h, key, arr) in W.live_arrays():
                 if np.shares_memory(r, arr):
                     raise Violation('alias:prop', f'prop({op["key"]!r}) returned an array sharing memory with {h}.{key}')
-    copying = k in ('pgeta', 'spgeta', 'dcopy', 'exti', 'exta', 'sext') or \
+    copying = k in ('pgeta', 'spgeta', 'dcopy', 'sdcopy', 'exti', 'exta', 'sext') or \
         (k in ('geti', 'ixget') and op['ix'][0] in ('L', 'K'))
     if copying:
         for kind, hname, obj in created:
@@ -1572,10 +1909,13 @@ def check_clauses(op, W, O, OS, pre_arrays, out, created):
                         raise Violation('alias:' + k, f'{k}: new object {hname}.{key} shares memory with {h}.{key2}')
 
 
-def check_df(op, df, o):
+def check_df(op, df, o, box=None):
     """Atoms.df() / System.atoms_df(): one row per atom, one column per component of every property (C order,
-    `key[i][j]`), values those of the record model."""
+    `key[i][j]`), values those of the record model; with scale=True / scale=[keys] the named 3-vector properties are
+    box-relative (compared to rounding: the table is a float computation on any box)."""
     k = op['op']
+    sc = op.get('scale')
+    scaled = ['pos'] if sc is True else (list(sc) if isinstance(sc, list) else ([] if not sc else [sc]))
     who = op.get('o', op.get('s'))
     cols = []
     for key, (cls, trail, w) in o.meta.items():
@@ -1589,6 +1929,14 @@ def check_df(op, df, o):
     if len(df) != o.n:
         raise Violation('df:rows', f'{who}.{k}: {len(df)} rows for {o.n} atoms')
     for name, key, c, cls in cols:
+        if key in scaled:
+            got = [float(x) for x in df[name].tolist()]
+            want = [o_ctr_row(box, r[key])[c] for r in o.recs]
+            for i in range(o.n):
+                if abs(got[i] - float(want[i])) > 1e-12 + 1e-9 * abs(float(want[i])):
+                    raise Violation('df:values', f'{who}.{k}(scale={sc!r}): column {name} row {i} reads {got[i]!r} but the '
+                                    f'box-relative value of atom {i} of the record model is {float(want[i])!r}')
+            continue
         got = [o_cell(cls, x) for x in df[name].tolist()]
         want = [r[key][c] for r in o.recs]
         if got != want:
@@ -1664,6 +2012,219 @@ def gen_valid_index(rng, n, nonempty=False, unique=True):
     return ['S', None, None, None]
 
 
+def mismatched_donor(rng, o, k, m):
+    """a `new` operation building a donor of m atoms whose property SET differs from that of the record object o: a
+    strict subset (extras dropped), a strict superset (one more property) or the same number of properties under
+    another name; dtypes / trailing shapes of the shared properties agree, so that only the key sets are at odds."""
+    extras = [kk for kk in o.meta if kk not in ('atype', 'pos')]
+    free = [kk for kk in KEYS + ['q0', 'q1'] if kk not in o.meta]
+    modes = ['superset'] + (['subset', 'subset', 'swap'] if extras else [])
+    mode = rng.choice(modes)
+    keep = list(extras)
+    rng.shuffle(keep)
+    if mode == 'subset':
+        keep = keep[:rng.randint(0, len(keep) - 1)]
+    extra = [[kk, gen_lit(rng, o.meta[kk][0], [m] + o.meta[kk][1])] for kk in keep]
+    if mode == 'swap':
+        extra[-1][0] = free[0]
+    if mode == 'superset':
+        extra.insert(rng.randint(0, len(extra)), [free[0], gen_lit(rng, rng.choice(['i', 'f']), [m] + rng.choice(TRAILS))])
+    return {'op': 'new', 'id': k, 'atype': gen_lit(rng, 'i', [m], 'atype'), 'pos': gen_lit(rng, 'f', [m, 3]),
+            'extra': extra, 'donor_mode': mode}
+
+
+def index_of_count(rng, n, m):
+    """an index (any form) selecting exactly m >= 1 of n atoms."""
+    c = rng.random()
+    if m == 1 and c < 0.4:
+        i = rng.randrange(n)
+        return vary_index(rng, ['I', i if rng.random() < 0.5 else i - n])
+    if c < 0.6:
+        st = rng.randint(0, n - m)
+        return ['S', st if rng.random() < 0.7 or st == 0 else st - n, st + m if st + m < n or rng.random() < 0.5 else None,
+                rng.choice([None, 1])]
+    pool = list(range(n))
+    rng.shuffle(pool)
+    if c < 0.8:
+        return vary_index(rng, ['L', [i if rng.random() < 0.7 else i - n for i in pool[:m]]])
+    chosen = set(pool[:m])
+    return vary_index(rng, ['K', [i in chosen for i in range(n)]])
+
+
+REFUSALS = ['keys'] * 6 + ['both', 'mask-length', 'mask-length', 'out-of-range', 'first-dimension', 'trailing-shape',
+                          'trailing-shape', 'missing-key', 'short-table', 'absent-type', 'too-many-masses', 'pbc-length',
+                          'scale-int-extend', 'zero-step', 'negative-extend']
+
+
+def gen_refusal(rng, W, O, OS, k, why=None):
+    """an operation the accessors must REFUSE (raise) while leaving every live object as it was; `refuse` names the
+    reason.  May return a `new` operation that builds the donor first and queue the refusal behind it."""
+    A, S = W.atoms, W.syss
+    cand = [h for h in A if O[h].n >= 1]
+    if not cand:
+        return None
+    why = why or rng.choice(REFUSALS)
+    scands = [x for x in S if x in OS and OS[x].atoms_h in A and O[OS[x].atoms_h].n >= 1]
+    via_sys = bool(scands) and rng.random() < 0.5
+    if via_sys:
+        sh = rng.choice(scands)
+        h = OS[sh].atoms_h
+    else:
+        sh = None
+        h = rng.choice(cand)
+    o = O[h]
+    n = o.n
+    keys = list(o.meta)
+    R = {'refuse': why}
+    if why == 'keys':
+        m = rng.randint(1, min(n, 3))
+        donors = [hh for hh in A if set(O[hh].meta) != set(o.meta) and O[hh].n == m]
+        ix = index_of_count(rng, n, m)
+        kinds = ['seti', 'pseta'] + (['spseta', 'spseta', 'ixset', 'ixset'] if via_sys else [])
+        kind = rng.choice(kinds)
+        if donors and rng.random() < 0.5:
+            src, first = rng.choice(donors), None
+        else:
+            first = mismatched_donor(rng, o, k, m)
+            src = 'a%d' % k
+        if kind == 'seti':
+            op = {'op': 'seti', 'o': h, 'ix': ix, 'src': src}
+        elif kind == 'pseta':
+            op = with_aid(rng, {'op': 'pseta', 'o': h, 'ix': ix, 'src': src})
+        elif kind == 'spseta':
+            op = with_aid(rng, {'op': 'spseta', 's': sh, 'ix': ix, 'src': src, 'scale': rng.random() < 0.4})
+        else:
+            sdon = [x for x in S if x in OS and OS[x].atoms_h == src]
+            op = {'op': 'ixset', 's': sh, 'ix': ix, 'src': ['s', rng.choice(sdon)] if sdon and rng.random() < 0.5
+                  else ['a', src]}
+        op.update(R)
+        if first is None:
+            return op
+        W.pending.insert(0, op)
+        return first
+    if why == 'both':
+        ix = gen_valid_index(rng, n)
+        c = rng.random()
+        if c < 0.4:
+            op = {'op': 'pget', 'o': h, 'key': rng.choice(keys), 'ix': ix}
+        elif c < 0.6:
+            op = {'op': 'pgeta', 'o': h, 'ix': ix, 'id': k}
+        else:
+            key = rng.choice(keys)
+            cls, trail, _ = o.meta[key]
+            op = {'op': 'pset', 'o': h, 'key': key, 'ix': ix, 'val': gen_lit(rng, cls, [], key)}
+        if via_sys:
+            op['op'] = 's' + op['op']
+            op['s'] = sh
+            del op['o']
+            if op['op'] == 'spset':
+                op['scale'] = False
+        op['aid'] = 'both'
+        op.update(R)
+        return op
+    if why in ('mask-length', 'out-of-range', 'zero-step'):
+        if why == 'mask-length':
+            ix = vary_index(rng, ['K', [rng.random() < 0.6 for _ in range(n + rng.choice([1, 2, -1]) if n > 1 else n + 1)]])
+        elif why == 'out-of-range':
+            ix = vary_index(rng, rng.choice([['I', n], ['I', -n - 1], ['I', n + 3], ['L', [0, n]], ['L', [-n - 1]]]))
+        else:
+            ix = ['S', rng.choice([None, 0, 1]), None, 0]
+        c = rng.random()
+        if ix[0] == 'I':
+            # an out-of-range int handed to Atoms[...] / prop(index=) becomes the empty slice [i:i+1] (`__intslice`, as
+            # coded and modelled): only the keyed accessors index the array itself and must raise
+            c = rng.choice([0.1, 0.7])
+        key = rng.choice(keys)
+        cls, trail, _ = o.meta[key]
+        if c < 0.3:
+            op = {'op': 'pget', 'o': h, 'key': key, 'ix': ix}
+        elif c < 0.5:
+            op = {'op': rng.choice(['geti', 'pgeta']), 'o': h, 'ix': ix, 'id': k}
+        elif c < 0.8 or ix[0] == 'S':
+            op = {'op': 'pset', 'o': h, 'key': key, 'ix': ix, 'val': gen_lit(rng, 'i' if key == 'atype' else cls, [], key)}
+        else:
+            same = [hh for hh in A if set(O[hh].meta) == set(o.meta) and O[hh].n == 1]
+            if not same:
+                op = {'op': 'pget', 'o': h, 'key': key, 'ix': ix}
+            else:
+                op = {'op': 'seti', 'o': h, 'ix': ix, 'src': rng.choice(same)}
+        if via_sys and op['op'] in ('pget', 'pgeta', 'pset', 'geti'):
+            op['op'] = {'pget': 'spget', 'pgeta': 'spgeta', 'pset': 'spset', 'geti': 'ixget'}[op['op']]
+            op['s'] = sh
+            del op['o']
+            if op['op'] == 'spset':
+                op['scale'] = False
+        op.update(R)
+        return op
+    if why == 'first-dimension':
+        key = rng.choice(keys + [kk for kk in KEYS if kk not in keys][:1])
+        cls, trail = (o.meta[key][0], o.meta[key][1]) if key in o.meta else ('f', rng.choice(TRAILS))
+        bad_n = rng.choice([n + 1, n + 2] + ([n - 1] if n >= 3 else []))
+        op = {'op': 'setv', 'o': h, 'key': key, 'val': gen_lit(rng, 'i' if key == 'atype' else cls, [bad_n] + trail, key),
+              'via': rng.choice(['view', 'attr'])}
+        op.update(R)
+        return op
+    if why == 'trailing-shape':
+        key = rng.choice(keys)
+        cls, trail, _ = o.meta[key]
+        if key == 'atype':
+            cls = 'i'
+        ix = gen_valid_index(rng, n, nonempty=True)
+        cnt = len(o_positions(n, ix))
+        if ix[0] == 'I':
+            ix, cnt = ['S', 0, n, None], n
+        wrong = [cnt, 2] if trail != [2] else [cnt, 4]
+        if trail == [3, 3]:
+            wrong = [cnt, 3, 2]
+        if rng.random() < 0.5:
+            op = {'op': 'pset', 'o': h, 'key': key, 'ix': ix, 'val': gen_lit(rng, cls, wrong, key)}
+        else:
+            op = {'op': 'setv', 'o': h, 'key': key, 'val': gen_lit(rng, cls, [n] + wrong[1:], key),
+                  'via': rng.choice(['view', 'attr'])}
+        op.update(R)
+        return op
+    if why == 'missing-key':
+        op = {'op': 'pget', 'o': h, 'key': 'nokey', 'ix': None if rng.random() < 0.5 else gen_valid_index(rng, n)}
+        if via_sys:
+            op = {'op': 'spget', 's': sh, 'key': 'nokey', 'ix': op['ix'], 'scale': rng.random() < 0.3}
+        op.update(R)
+        return op
+    if why in ('short-table', 'absent-type'):
+        nt = o_natypes(o)
+        key = rng.choice([kk for kk in keys if kk != 'pos'] + KEYS[:2])
+        cls, trail = (o.meta[key][0], o.meta[key][1]) if key in o.meta else ('f', [])
+        if key == 'atype':
+            cls = 'i'
+        if why == 'short-table':
+            if nt < 2:
+                return None
+            op = {'op': 'patype', 'o': h, 'key': key, 'val': gen_lit(rng, cls, [nt - 1] + trail, key), 't': None}
+        else:
+            op = {'op': 'patype', 'o': h, 'key': key, 'val': gen_lit(rng, cls, trail, key), 't': rng.choice([0, nt + 1, -1])}
+        op.update(R)
+        return op
+    if not scands:
+        return None
+    sh = sh or rng.choice(scands)
+    o = O[OS[sh].atoms_h]
+    if why == 'too-many-masses':
+        nt = max(len(OS[sh].symbols), o_natypes(o))
+        op = {'op': 'massset', 's': sh, 'masses': gen_masses(rng, nt + 1, nt + 2)}
+    elif why == 'pbc-length':
+        op = with_forms(rng, {'op': 'pbcset', 's': sh, 'pbc': [rng.random() < 0.5 for _ in range(rng.choice([2, 4, 1]))]})
+    elif why == 'scale-int-extend':
+        op = {'op': 'sext', 's': sh, 'value': ['i', rng.choice([1, 2])], 'scale': True, 'symbols': None, 'id': k}
+    elif why == 'negative-extend':
+        if rng.random() < 0.5:
+            op = {'op': 'exti', 'o': OS[sh].atoms_h, 'n': rng.choice([-1, -2]), 'id': k}
+        else:
+            op = {'op': 'sext', 's': sh, 'value': ['i', rng.choice([-1, -3])], 'scale': False, 'symbols': None, 'id': k}
+    else:
+        return None
+    op.update(R)
+    return op
+
+
 def gen_valid_op(rng, W, O, OS, k):
     np = _np()
     A, S = W.atoms, W.syss
@@ -1705,16 +2266,24 @@ def gen_valid_op(rng, W, O, OS, k):
         if free:
             return {'op': 'drop', 'o': rng.choice(free)}
         return {'op': 'drop', 's': rng.choice(list(S))}
+    if rng.random() < 0.05:
+        r = gen_refusal(rng, W, O, OS, k)
+        if r is not None:
+            return r
+    empties = [hh for hh in A if O[hh].n == 0]
+    if empties and rng.random() < 0.08:
+        return gen_empty_op(rng, W, O, rng.choice(empties), k)
     h = rng.choice([hh for hh in A if O[hh].n > 0] or list(A))
     o = O[h]
     n = o.n
     if n == 0:
-        return {'op': 'pkeys', 'o': h}
+        return gen_empty_op(rng, W, O, h, k)
     kinds = ['setv'] * 8 + ['pget'] * 5 + ['pgeta'] * 3 + ['pset'] * 9 + ['pseta'] * 3 + ['geti'] * 7 + ['seti'] * 5 \
-        + ['patype'] * 5 + ['exti'] * 3 + ['exta'] * 5 + ['dcopy'] * 2 + ['mksys'] * 4 + ['natypes'] * 2 + ['df'] * 3
+        + ['patype'] * 5 + ['exti'] * 3 + ['exta'] * 5 + ['dcopy'] * 2 + ['mksys'] * 5 + ['natypes'] * 2 + ['df'] * 3
     if S:
-        kinds += ['symget', 'symset', 'massget', 'massset', 'snatypes'] * 2 + ['satypes', 'scomp', 'sstr'] + ['sdf'] * 3 \
-            + ['spget', 'spgeta'] + ['spset'] * 4 + ['sext'] * 6 + ['ixget'] * 4 + ['ixset'] * 3
+        kinds += ['symget', 'symset', 'massget', 'massset', 'snatypes', 'pbcset'] * 2 + ['satypes', 'scomp', 'sstr'] \
+            + ['sdf'] * 4 + ['spget'] * 6 + ['spgeta'] * 8 + ['spset'] * 5 + ['spseta'] * 3 + ['sext'] * 6 + ['ixget'] * 5 \
+            + ['ixset'] * 4 + ['sdcopy'] * 2 + ['spkeys']
     kind = rng.choice(kinds)
     sh = None
     if rng.random() < 0.03:
@@ -1744,7 +2313,7 @@ def gen_valid_op(rng, W, O, OS, k):
         data[rng.randrange(n)] = bad
         return {'op': 'setv', 'o': h, 'key': 'atype', 'val': lit(dt, [n], data), 'via': 'view', 'hostile': True}
     if kind in ('symget', 'symset', 'massget', 'massset', 'snatypes', 'satypes', 'scomp', 'sstr', 'sdf', 'spget',
-                'spgeta', 'spset', 'sext', 'ixget', 'ixset'):
+                'spgeta', 'spset', 'spseta', 'sext', 'ixget', 'ixset', 'sdcopy', 'spkeys', 'pbcset'):
         cands = [x for x in S if OS[x].atoms_h in A and O[OS[x].atoms_h].n > 0]
         if not cands:
             return {'op': 'pkeys', 'o': h}
@@ -1766,13 +2335,30 @@ def gen_valid_op(rng, W, O, OS, k):
     if kind in ('pget', 'spget'):
         ix = None if rng.random() < 0.3 else gen_valid_index(rng, n)
         key = rng.choice(keys)
-        return {'op': 'pget', 'o': h, 'key': key, 'ix': ix} if kind == 'pget' else \
-            {'op': 'spget', 's': sh, 'key': key, 'ix': ix}
+        if kind == 'pget':
+            return with_aid(rng, {'op': 'pget', 'o': h, 'key': key, 'ix': ix})
+        op = {'op': 'spget', 's': sh, 'key': key, 'ix': ix}
+        vec = [kk for kk in keys if o.meta[kk][0] in 'ifb' and o.meta[kk][1] == [3]]
+        if vec and box_exact(W.box.get(sh)) and rng.random() < 0.5:
+            op['key'], op['scale'] = rng.choice(vec), True
+        return with_aid(rng, op)
     if kind in ('pgeta', 'spgeta', 'geti', 'ixget'):
         ix = gen_valid_index(rng, n, nonempty=(kind == 'ixget'), unique=False)
         d = {'op': kind, 'ix': ix, 'id': k}
         d['s' if kind in ('spgeta', 'ixget') else 'o'] = sh if kind in ('spgeta', 'ixget') else h
-        return d
+        if kind == 'spgeta' and box_exact(W.box.get(sh)) and rng.random() < 0.6:
+            d['scale'] = True
+            if rng.random() < 0.15:
+                d['ix'] = None
+            elif n >= 2 and rng.random() < 0.4:
+                d['ix'] = gen_span(rng, n)
+        return with_aid(rng, d) if kind in ('pgeta', 'spgeta') else d
+    if kind == 'sdcopy':
+        return {'op': 'sdcopy', 's': sh, 'id': k}
+    if kind == 'spkeys':
+        return {'op': 'spkeys', 's': sh}
+    if kind == 'pbcset':
+        return with_forms(rng, {'op': 'pbcset', 's': sh, 'pbc': [rng.random() < 0.5 for _ in range(3)]})
     if kind in ('pset', 'spset'):
         scale = kind == 'spset' and rng.random() < 0.6
         if scale:
@@ -1803,9 +2389,9 @@ def gen_valid_op(rng, W, O, OS, k):
             if ix is not None and ix[0] == 'K' and not trail and len(v['shape']) > 1:
                 v = gen_lit(rng, v['dt'], [], key)
         if kind == 'pset':
-            return {'op': 'pset', 'o': h, 'key': key, 'ix': ix, 'val': v}
-        return {'op': 'spset', 's': sh, 'key': key, 'ix': ix, 'val': v, 'scale': scale}
-    if kind in ('pseta', 'seti', 'ixset'):
+            return with_aid(rng, {'op': 'pset', 'o': h, 'key': key, 'ix': ix, 'val': v})
+        return with_aid(rng, {'op': 'spset', 's': sh, 'key': key, 'ix': ix, 'val': v, 'scale': scale})
+    if kind in ('pseta', 'seti', 'ixset', 'spseta'):
         def fits(hh):
             d = O[hh]
             return set(d.meta) == set(o.meta) and all(
@@ -1835,12 +2421,19 @@ def gen_valid_op(rng, W, O, OS, k):
             ta, da = A[h], A[src]
             if any(np.shares_memory(ta.view[kk], da.view[kk]) for kk in ta.view):
                 ix = ['L', sorted(chosen)]       # numpy's 1-D boolean assignment is not overlap-safe
-        if m == n and rng.random() < 0.3 and kind == 'pseta':
-            return {'op': 'pseta', 'o': h, 'ix': None, 'src': src}
+        ix = vary_index(rng, ix)
+        if m == n and rng.random() < 0.3 and kind in ('pseta', 'spseta'):
+            ix = None
         if kind == 'pseta':
-            return {'op': 'pseta', 'o': h, 'ix': ix, 'src': src}
+            return with_aid(rng, {'op': 'pseta', 'o': h, 'ix': ix, 'src': src})
+        if kind == 'spseta':
+            # scale=True overwrites the donor's positions with their Cartesian image first (model = code)
+            return with_aid(rng, {'op': 'spseta', 's': sh, 'ix': ix, 'src': src, 'scale': rng.random() < 0.5})
         if kind == 'seti':
             return {'op': 'seti', 'o': h, 'ix': ix, 'src': src}
+        sdon = [x for x in S if x in OS and OS[x].atoms_h == src]
+        if sdon and rng.random() < 0.5:
+            return {'op': 'ixset', 's': sh, 'ix': ix, 'src': ['s', rng.choice(sdon)]}
         return {'op': 'ixset', 's': sh, 'ix': ix, 'src': ['a', src]}
     if kind == 'patype':
         nt = o_natypes(o)
@@ -1887,7 +2480,11 @@ def gen_valid_op(rng, W, O, OS, k):
     if kind == 'df':
         return {'op': 'df', 'o': h}
     if kind == 'sdf':
-        return {'op': 'sdf', 's': sh}
+        vec = [kk for kk in keys if o.meta[kk][0] in 'ifb' and o.meta[kk][1] == [3]]
+        c = rng.random()
+        sc = False if c < 0.3 else (True if c < 0.6 else (rng.sample(vec, rng.randint(1, len(vec))) if c < 0.9
+                                                          else rng.choice(vec)))
+        return {'op': 'sdf', 's': sh, 'scale': sc}
     if kind == 'mksys':
         nt = o_natypes(o)
         op = {'op': 'mksys', 'o': h, 'id': k, 'box': gen_box(rng), 'pbc': [rng.random() < 0.5 for _ in range(3)]}
@@ -1898,17 +2495,211 @@ def gen_valid_op(rng, W, O, OS, k):
             op['masses'] = gen_masses(rng, 0, ns if op.get('symbols') is not None else min(ns, 3))
             if op.get('symbols') is None:
                 op['masses'] = op['masses'][:max(nt, len(op['masses']) and nt)]
-        return op
+        return with_forms(rng, op)
     if kind in OBSERVERS:
         return {'op': kind, 's': sh}
     if kind == 'symset':
-        return {'op': 'symset', 's': sh, 'symbols': gen_syms(rng, 0, 5)}
+        return with_forms(rng, {'op': 'symset', 's': sh, 'symbols': gen_syms(rng, 0, 5)})
     if kind == 'massset':
         # as many masses as System.natypes allows at this moment (computed from the specification's hidden tuple
         # without reading it, so that the choice does not pad anything)
         nt = max(len(OS[sh].symbols), o_natypes(o))
-        return {'op': 'massset', 's': sh, 'masses': gen_masses(rng, 0, nt)}
+        return with_forms(rng, {'op': 'massset', 's': sh, 'masses': gen_masses(rng, 0, nt)})
     raise RuntimeError(kind)
+
+
+def gen_empty_op(rng, W, O, h, k):
+    """operations on an object without atoms (the result of an empty selection): reads, copies, whole-column
+    assignment of zero rows, extension BY it."""
+    o = O[h]
+    keys = list(o.meta)
+    c = rng.random()
+    if c < 0.2:
+        return {'op': 'pget', 'o': h, 'key': rng.choice(keys), 'ix': rng.choice([None, ['S', None, None, None], ['L', []]])}
+    if c < 0.35:
+        return {'op': rng.choice(['geti', 'pgeta']), 'o': h, 'ix': rng.choice([['S', None, None, None], ['L', []],
+                                                                              ['S', 0, 2, None]]), 'id': k}
+    if c < 0.5:
+        return {'op': 'dcopy', 'o': h, 'id': k}
+    if c < 0.6:
+        return {'op': 'df', 'o': h}
+    if c < 0.75:
+        key = rng.choice(keys)
+        cls, trail, _ = o.meta[key]
+        return {'op': 'setv', 'o': h, 'key': key, 'val': gen_lit(rng, cls, [0] + trail, key), 'via': rng.choice(['view', 'attr'])}
+    # another object extended by the empty one: a copy of that object (every property of the empty donor that the
+    # other lacks would need `view[prop][0]` of an empty array: only donors whose keys the target has)
+    tg = [hh for hh in W.atoms if O[hh].n > 0 and set(o.meta) <= set(O[hh].meta) and all(
+        o.meta[kk][1] == O[hh].meta[kk][1] and (o.meta[kk][0] == 's') == (O[hh].meta[kk][0] == 's') for kk in o.meta)]
+    if tg:
+        return {'op': 'exta', 'o': rng.choice(tg), 'src': h, 'id': k}
+    return {'op': 'pkeys', 'o': h}
+
+
+def describe_accepted(op, W, O, OS):
+    """message for an operation that had to be refused but returned: what it is and what it changed."""
+    why = {'keys': "the donor's property set differs from the target's (`Can only set Atoms with matching properties`)",
+           'both': 'index and a_id are both given', 'mask-length': 'the boolean mask has the wrong length',
+           'out-of-range': 'the index is out of range', 'zero-step': 'the slice step is zero',
+           'first-dimension': 'the first dimension of the value is neither 1 nor natoms',
+           'trailing-shape': 'the trailing shape of the value does not fit the property',
+           'missing-key': 'the property does not exist', 'short-table': 'the table is shorter than natypes',
+           'absent-type': 'the atom type is not among the atom types', 'too-many-masses': 'more masses than atom types',
+           'pbc-length': 'pbc needs exactly three entries', 'scale-int-extend': 'scale=True needs an Atoms value',
+           'negative-extend': 'a negative number of atoms'}.get(op['refuse'], op['refuse'])
+    changed = []
+    for h, a in W.atoms.items():
+        if h not in O:
+            continue
+        o = O[h]
+        for key in a.view:
+            if key in o.meta and a.view[key].shape[0] == o.n:
+                rows = real_rows(a.view[key])
+                want = [r[key] for r in o.recs]
+                if rows != want:
+                    i = next(i for i in range(o.n) if rows[i] != want[i])
+                    changed.append(f'{h}.{key}[{i}]: {want[i]} -> {rows[i]}')
+    extra = ''
+    if op['op'] in ('seti', 'pseta', 'spseta', 'ixset'):
+        src = op['src'] if isinstance(op['src'], str) else (op['src'][1] if op['src'][0] == 'a' else OS[op['src'][1]].atoms_h)
+        tgt = op['o'] if 'o' in op else OS[op['s']].atoms_h
+        extra = f' (target keys {list(O[tgt].meta)}, donor keys {list(O[src].meta)})'
+    return (f"{op['op']} was accepted although {why}{extra}; it must raise and change nothing"
+            + (': changed ' + '; '.join(changed[:4]) if changed else ''))
+
+
+# ----------------------------------------------------------------------------------------------
+# the accessor matrix: EVERY accessor x EVERY index form x scale x key x value, as short fixed histories
+# ----------------------------------------------------------------------------------------------
+
+def matrix_index_forms(n):
+    """(name, index spec) for every index form against n = 5 atoms."""
+    assert n == 5
+    forms = [
+        ('int', ['I', 2]), ('int0', ['I', 0]), ('int-last', ['I', 4]), ('neg-int', ['I', -1]), ('neg-int2', ['I', -4]),
+        ('np-int', ['I', 3, 'np']), ('np-neg-int', ['I', -2, 'np']),
+        ('slice', ['S', 1, 4, None]), ('slice-all', ['S', None, None, None]), ('slice-open-start', ['S', None, 3, None]),
+        ('slice-open-stop', ['S', 2, None, None]), ('slice-neg-bounds', ['S', -4, -1, None]),
+        ('slice-step2', ['S', None, None, 2]), ('slice-rev', ['S', None, None, -1]), ('slice-rev-open', ['S', 3, None, -1]),
+        ('slice-rev-bounds', ['S', 4, 1, -1]), ('slice-rev-step2', ['S', -1, None, -2]), ('slice-one', ['S', 2, 3, None]),
+        ('slice-empty', ['S', 3, 3, None]), ('slice-beyond', ['S', 3, 9, None]),
+        ('list', ['L', [0, 3]]), ('list-one', ['L', [4]]), ('list-neg', ['L', [-1, 1, 2]]), ('list-unordered', ['L', [3, 0, 2]]),
+        ('list-empty', ['L', []]), ('np-array', ['L', [1, 4, 2], 'np']), ('np-array-neg', ['L', [-5, -1], 'np']),
+        ('mask', ['K', [True, False, True, True, False]]), ('mask-one', ['K', [False, False, False, True, False]]),
+        ('mask-none', ['K', [False] * 5]), ('mask-all', ['K', [True] * 5]), ('mask-list', ['K', [False, True, True, False, True], 'list']),
+    ]
+    return forms
+
+
+def matrix_histories(rng, refusals=True):
+    """short fixed histories [Atoms(5 atoms, int / float-vector / str / bool extras), System on a box that is neither
+    the unit cube nor axis-aligned (exact), (donor,) ONE accessor call, read-backs]: the cross product the random
+    histories only sample.  Every history is checked after every operation like any other (full state of every live
+    object, aliasing, reads must not write)."""
+    n = 5
+    base = {'op': 'new', 'id': 0, 'atype': lit('i', [n], [1, 2, 1, 3, 2]), 'pos': gen_lit(rng, 'f', [n, 3]),
+            'extra': [['p0', gen_lit(rng, 'i', [n])], ['p1', gen_lit(rng, 'f', [n, 3])],
+                      ['p2', lit('s', [n], ['Al', 'Cu', 'a', 'xyz', ''], 3)], ['p3', gen_lit(rng, 'b', [n])]]}
+    while True:
+        box = gen_box(rng)
+        if box_exact(box) and (box[3] != 0.0 or box[6] != 0.0 or box[7] != 0.0) and box[:9:4] != [1.0, 1.0, 1.0] \
+                and box[9:] != [0.0, 0.0, 0.0]:
+            break
+    mksys = {'op': 'mksys', 'o': 'a0', 'id': 1, 'box': box, 'pbc': [True, False, True], 'symbols': ['Al', 'Cu', 'Ni']}
+    meta = {'atype': ('i', []), 'pos': ('f', [3]), 'p0': ('i', []), 'p1': ('f', [3]), 'p2': ('s', []), 'p3': ('b', []),
+            'p4': ('f', [])}
+    rot = [0]
+
+    def donor(m, order):
+        ex = [[kk, gen_lit(rng, meta[kk][0], [m] + meta[kk][1])] for kk in order]
+        return {'op': 'new', 'id': 2, 'atype': gen_lit(rng, 'i', [m], 'atype'), 'pos': gen_lit(rng, 'f', [m, 3]), 'extra': ex}
+
+    out = []
+    for name, ix in matrix_index_forms(n):
+        pos = o_positions(n, ix)
+        m = len(pos)
+        scalar = ix[0] == 'I'
+        # ---- reads: key given / absent x scale False / True
+        for key in ('atype', 'pos', 'p1', 'p2'):
+            out.append((f'pget:{key}[{name}]', [base, {'op': 'pget', 'o': 'a0', 'key': key, 'ix': ix}]))
+        out.append((f'pget:a_id[{name}]', [base, {'op': 'pget', 'o': 'a0', 'key': 'p0', 'ix': ix, 'aid': 'aid'}]))
+        for key in ('p0', 'pos'):
+            out.append((f'spget:{key}[{name}]', [base, mksys, {'op': 'spget', 's': 's1', 'key': key, 'ix': ix}]))
+        for key in ('pos', 'p1'):
+            out.append((f'spget:scaled:{key}[{name}]',
+                        [base, mksys, {'op': 'spget', 's': 's1', 'key': key, 'ix': ix, 'scale': True},
+                         {'op': 'spget', 's': 's1', 'key': key, 'ix': ix, 'scale': True}]))
+        out.append((f'geti[{name}]', [base, {'op': 'geti', 'o': 'a0', 'ix': ix, 'id': 3}]))
+        out.append((f'pgeta[{name}]', [base, {'op': 'pgeta', 'o': 'a0', 'ix': ix, 'id': 3}]))
+        out.append((f'spgeta[{name}]', [base, mksys, {'op': 'spgeta', 's': 's1', 'ix': ix, 'id': 3}]))
+        out.append((f'spgeta:scaled[{name}]',
+                    [base, mksys, {'op': 'spgeta', 's': 's1', 'ix': ix, 'id': 3, 'scale': True},
+                     {'op': 'spgeta', 's': 's1', 'ix': ix, 'id': 4, 'scale': True},
+                     {'op': 'spget', 's': 's1', 'key': 'pos', 'ix': None}]))
+        out.append((f'spgeta:scaled:a_id[{name}]',
+                    [base, mksys, {'op': 'spgeta', 's': 's1', 'ix': ix, 'id': 3, 'scale': True, 'aid': 'aid'}]))
+        if m >= 1:
+            out.append((f'ixget[{name}]', [base, mksys, {'op': 'ixget', 's': 's1', 'ix': ix, 'id': 3},
+                                           {'op': 'symget', 's': 's3'}, {'op': 'massget', 's': 's3'}]))
+        # ---- writes: key given (value array / scalar / row) x scale False / True
+        cnt = None if scalar else m
+        for key in ('p0', 'p1', 'p2', 'p3', 'atype'):
+            cls, trail = meta[key]
+            shapes = [([] if scalar else [m]) + trail, []] + ([trail] if trail else [])
+            for shape in shapes:
+                v = gen_lit(rng, cls, shape, key)
+                out.append((f'pset:{key}{shape}[{name}]',
+                            [base, {'op': 'pset', 'o': 'a0', 'key': key, 'ix': ix, 'val': v},
+                             {'op': 'pget', 'o': 'a0', 'key': key, 'ix': ix}]))
+        v = gen_lit(rng, 'f', ([] if scalar else [m]) + [3])
+        out.append((f'spset[{name}]', [base, mksys, {'op': 'spset', 's': 's1', 'key': 'p1', 'ix': ix, 'val': v, 'scale': False}]))
+        for key in ('pos', 'p1'):
+            out.append((f'spset:scaled:{key}[{name}]',
+                        [base, mksys, {'op': 'spset', 's': 's1', 'key': key, 'ix': ix, 'val': v, 'scale': True},
+                         {'op': 'spget', 's': 's1', 'key': key, 'ix': ix, 'scale': True}]))
+        # ---- writes: no key, value = Atoms (donor with the same properties in another order)
+        if m >= 1:
+            order = ['p3', 'p1', 'p0', 'p2']
+            for kind in ('seti', 'pseta', 'spseta', 'spseta:scaled', 'ixset:a', 'ixset:s'):
+                d = donor(m, order)
+                pre = [base, mksys, d]
+                if kind == 'seti':
+                    op = {'op': 'seti', 'o': 'a0', 'ix': ix, 'src': 'a2'}
+                elif kind == 'pseta':
+                    op = {'op': 'pseta', 'o': 'a0', 'ix': ix, 'src': 'a2'}
+                elif kind.startswith('spseta'):
+                    op = {'op': 'spseta', 's': 's1', 'ix': ix, 'src': 'a2', 'scale': kind.endswith('scaled')}
+                elif kind == 'ixset:a':
+                    op = {'op': 'ixset', 's': 's1', 'ix': ix, 'src': ['a', 'a2']}
+                else:
+                    pre = pre + [{'op': 'mksys', 'o': 'a2', 'id': 5, 'box': box, 'pbc': [True, True, True]}]
+                    op = {'op': 'ixset', 's': 's1', 'ix': ix, 'src': ['s', 's5']}
+                out.append((f'{kind}[{name}]', pre + [op, {'op': 'pgeta', 'o': 'a0', 'ix': ix, 'id': 6}]))
+                if refusals:
+                    # donors whose property SET differs, in either direction: refused, nothing changes
+                    modes = (('subset', order[:2]), ('subset0', []), ('superset', order + ['p4']),
+                             ('swap', order[:3] + ['p4']))
+                    rot[0] += 1
+                    for mode, ex in (modes[rot[0] % 4],):     # every (accessor, mode) pair occurs under 8 index forms
+                        bad = donor(m, ex)
+                        pre2 = [base, mksys, bad] + pre[3:]
+                        rop = dict(op, refuse='keys')
+                        out.append((f'refuse:{kind}:{mode}[{name}]', pre2 + [rop]))
+    # ---- no index at all
+    out.append(('spgeta:scaled[none]', [base, mksys, {'op': 'spgeta', 's': 's1', 'ix': None, 'id': 3, 'scale': True},
+                                        {'op': 'spgeta', 's': 's1', 'ix': None, 'id': 4, 'scale': True}]))
+    out.append(('spget:scaled[none]', [base, mksys, {'op': 'spget', 's': 's1', 'key': 'pos', 'ix': None, 'scale': True}]))
+    out.append(('sdcopy', [base, dict(mksys, masses=[1.5, None]), {'op': 'sdcopy', 's': 's1', 'id': 3},
+                           {'op': 'pset', 'o': 'a0', 'key': 'atype', 'ix': ['I', 0], 'val': lit('i', [], [5])},
+                           {'op': 'sdcopy', 's': 's1', 'id': 4}, {'op': 'massget', 's': 's4'}, {'op': 'symget', 's': 's3'}]))
+    for d_as in ('a', 'i'):
+        for scale in (False, True):
+            if d_as == 'i' and scale:
+                continue
+            val = ['a', 'a2'] if d_as == 'a' else ['i', 2]
+            out.append((f'sext:{d_as}:{scale}', [base, mksys, donor(2, ['p1']),
+                                                 {'op': 'sext', 's': 's1', 'value': val, 'scale': scale, 'symbols': None, 'id': 3}]))
+    return out
 
 
 def run_oracle_history(ops_or_gen, rng=None, length=0, ctx=None):
@@ -1952,6 +2743,8 @@ def run_oracle_history(ops_or_gen, rng=None, length=0, ctx=None):
                 v = op.get('value') or op.get('src')
                 if v[0] == 'a' and v[1] not in W.atoms:
                     raise KeyError(v[1])
+                if v[0] == 's' and v[1] not in W.syss:
+                    raise KeyError(v[1])
         except KeyError:
             continue
         ops.append(op)
@@ -1960,6 +2753,16 @@ def run_oracle_history(ops_or_gen, rng=None, length=0, ctx=None):
             rep, created = exec_real(op, W)
             if rep.startswith('err') and op.get('hostile'):
                 check_clauses(op, W, O, OS, pre_arrays, None, [])      # refused: nothing may have changed
+                continue
+            if op.get('refuse'):
+                if not rep.startswith('err'):
+                    raise Violation('not-refused:' + op['refuse'], describe_accepted(op, W, O, OS))
+                if op['op'] == 'spseta' and op.get('scale'):
+                    _, written = oracle_apply(op, O, OS)        # the donor's positions were converted before the refusal
+                    resync(W, O, written)
+                check_clauses(op, W, O, OS, pre_arrays, None, [])      # refused: nothing may have changed
+                if ctx is not None:
+                    ctx.stats.case('oracle:refuse:' + op['refuse'], json.dumps(op, sort_keys=True, default=str))
                 continue
             if rep.startswith('err'):
                 raise Violation('valid-op-raised:' + op['op'],
@@ -1973,7 +2776,8 @@ def run_oracle_history(ops_or_gen, rng=None, length=0, ctx=None):
                 return ops, Violation('oracle-internal', f'oracle cannot follow {op}: {e!r}')  # does not define
             resync(W, O, written)
             if op['op'] in ('df', 'sdf'):
-                check_df(op, W.last_obs, O[op['o']] if op['op'] == 'df' else O[OS[op['s']].atoms_h])
+                check_df(op, W.last_obs, O[op['o']] if op['op'] == 'df' else O[OS[op['s']].atoms_h],
+                         None if op['op'] == 'df' else OS[op['s']].box)
             if op['op'] in OBSERVERS or op['op'] == 'natypes':
                 check_observed(op, rep, out)
                 out = None
@@ -1984,6 +2788,8 @@ def run_oracle_history(ops_or_gen, rng=None, length=0, ctx=None):
             check_clauses(op, W, O, OS, pre_arrays, out, created)
         except Violation as v:
             return ops, v
+        except Inexact:
+            return ops, None
         if not fixed and closing is None:
             schedule_obs(rng, W, op, nmass=lambda x: (max(len(OS[x].symbols), o_natypes(O[OS[x].atoms_h]))
                                                       if OS[x].atoms_h in W.atoms and O[OS[x].atoms_h].n > 0 else None))
@@ -2015,7 +2821,30 @@ def search(ctx, broken):
     rng = random.Random(ctx.seed * 7919 + 17)
     nhist = ctx.n(350, 12000) * (3 if broken else 1)
     found = set()
+    nmat = 0
+    for name, mops in matrix_histories(rng):
+        nmat += 1
+        ops, v = run_oracle_history(mops, ctx=ctx)
+        if v is None:
+            continue
+        if v.key == 'oracle-internal':
+            raise cm.InfraError(f'C06 oracle (matrix {name}): ' + v.what)
+        fam = v.key + '|' + name.split('[')[0]
+        if fam in found or len([f for f in found if f.startswith(v.key + '|')]) >= 2:
+            continue
+        found.add(fam)
+        small = shrink_oracle(ops, v.key)
+        _, v2 = run_oracle_history(small)
+        v2 = v2 or v
+        ctx.violate(v.key, f'accessor matrix `{name}`: ' + v2.what, {'op': 'oracle-history', 'ops': small, 'clause': v.key,
+                                                                     'matrix': name})
+        if len(found) >= 6:
+            break
+    ctx.extra['c06_oracle_matrix_histories'] = nmat
+    found = {f.split('|')[0] for f in found}
     for hno in range(nhist):
+        if len(found) >= 4:
+            break
         ops, v = run_oracle_history(None, rng, rng.randint(4, 28), ctx)
         if v is None:
             continue
